@@ -56,6 +56,7 @@ def spec_violated(rep):
     ops, impl = rep["ops"], rep["impl"]
     live = {}
     pend = {}
+    vigil = set()
     for op, line in zip(ops[1:], impl[1:]):
         f = op.split()
         if f[0] == "set" and line in ("NEW", "UPDATED", "SAME"):
@@ -76,6 +77,14 @@ def spec_violated(rep):
                 for kk, ss in zip(p[1:3], sts):
                     if ss == "DELETED":
                         live.pop(kk, None)
+        mv = re.match(r"(\w)@gw\.set\.vigil", line)
+        if mv:
+            vigil.add(mv.group(1))
+        md = re.match(r"(\w) done ", line)
+        if md:
+            vigil.discard(md.group(1))
+        if line == "tick closed" and vigil:
+            return "the idle listener closed the swamp while request %s holds a vigil on it" % sorted(vigil)
         if "stuck" in line or line == "hang":
             return "request hangs at `%s`" % op
         m2 = re.match(r"stopped open=(\d+)", line)
